@@ -385,6 +385,10 @@ def run(ctx):
         oko = order == ['header_create', 'write_header', 'chunks_from_temp']
         ck.ob('C01-e', 'R2.order', zc.name, 'header-then-body', oko,
               'zck_close: %s' % ' -> '.join(order), zc.file, zc.line, config=config)
+        # ---- i  regardless of which descriptors are free: tools reserve 0..2 before opening anything
+        from ..rules import extra as _extra
+        nt = _extra.check_std_fds(ck, prog, config, 'C01-i')
+        ck.min_instances('tool main() functions that open files', nt, 5)
         # ---- h  the zck tool's split-string scanner: two structural necessary conditions (the scanner as a whole is declined)
         from ..rules import guardlen
         ng = guardlen.check_guarded_lengths(ck, prog, config, 'C01-h')
@@ -412,6 +416,8 @@ CLAIM = {
 }
 
 MUTANTS = [
+    {'id': 'm01f', 'desc': 'zck no longer reserves the standard descriptors (pre-fix form)', 'file': 'src/zck.c',
+     'old': '    reserve_std_fds();\n', 'new': '', 'expect': 'R7.std-fds zck.c'},
     {'id': 'm01s', 'desc': 'split scanner: queued byte dropped when exactly one byte precedes a match (pre-fix form)',
      'file': 'src/zck.c', 'old': '                        if(l >= matched)', 'new': '                        if(l > matched)',
      'expect': 'R4.guarded-length main'},
